@@ -1,6 +1,7 @@
 """Seeded scenario generators (swarm style).  The PRNG is used here and nowhere else."""
 import hashlib
 import math
+import copy
 import random
 
 from .problems import gen_problem
@@ -739,6 +740,15 @@ def gen_C13(seed):
             if seam == "callback" and not ops[i].get("callbacks"):
                 seam = "rhs"
             scn["faults"].append({"op": i, "seam": seam, "at": rf.randrange(1, 80 if seam != "callback" else 6), "kind": rf.choice(["raise", "raise", "kbdint"])})
+    rn_ = sub(seed, "nanfault")
+    if not scn["faults"] and iops and is_adaptive(s["method"]) and rn_.random() < 0.12:
+        # the model leaves its domain for a while (non-finite slopes): the call fails; the same call is then made again on the healed model
+        i = rn_.choice(iops)
+        k0 = rn_.randrange(1, 60)
+        scn["faults"] = [{"op": i, "seam": "rhs", "at": k0 + j, "kind": "spike", "amp": "nan"} for j in range(rn_.choice([40, 400, 3000]))]
+        ops.insert(i + 1, copy.deepcopy(ops[i]))
+        ops[i + 1].pop("noop", None)
+        scn["nan_then_repeat"] = i
     fault_ops = set(f["op"] for f in scn["faults"])
     for i, op in enumerate(ops):
         if op.get("noop") and (i - 1) in fault_ops:
